@@ -20,12 +20,10 @@ Proof.
   assert (H : Qle_bool q0 b = true) by (apply Qle_bool_iff; eapply Qle_trans; eauto). congruence.
 Qed.
 
-Theorem qk_py_fixsigns_other_is_model (A B : ktensor Qc) : wf_k A -> wf_k B -> krank B <= krank A ->
+Theorem qk_py_fixsigns_other_is_model (A B : ktensor Qc) : wf_k A ->
   qk_py_fixsigns_other A B = qk_fixsigns_other A B.
 Proof.
-  intros HA HB Hle. unfold qk_py_fixsigns_other, qk_fixsigns_other, qk_normalize.
-  destruct (wf_normalize Qc q0 q1 Qcmult Qcopp Qcinv (q_norm 2) q_pos q_neg (q_root (length (kfactors A))) (argsort_desc qleb) A HA) as [H1 H2].
-  destruct (wf_normalize Qc q0 q1 Qcmult Qcopp Qcinv (q_norm 2) q_pos q_neg (q_root (length (kfactors B))) (argsort_desc qleb) B HB) as [_ H4].
+  intros HA. unfold qk_py_fixsigns_other, qk_fixsigns_other, qk_normalize.
+  destruct (wf_normalize Qc q0 q1 Qcmult Qcopp Qcinv (q_norm 2) q_pos q_neg (q_root (length (kfactors A))) (argsort_desc qleb) A HA) as [H1 _].
   apply (py_fixsigns_other_is_model Qc q0 q1 Qcplus Qcmult Qcminus Qcopp Qcrt q_neg qleb qleb_total' q_neg_mono); auto.
-  rewrite H2, H4. exact Hle.
 Qed.
